@@ -65,6 +65,9 @@ _ctx = {}
 _SETUP_DONE = []
 
 
+RULE = RULE + ' Round 16: an armed allocation-fault position that the library never reaches (it streams fewer batches than ceil(num_bf/batch)) is an observation, the call is judged like any successful call.'
+
+
 def setup():
     if _SETUP_DONE:
         return
